@@ -664,12 +664,15 @@ func (d *driver) finish(t0 time.Time, nomin bool) int {
 		}
 		code = 2
 	}
+	tooManyInconclusive := ""
 	if total == 0 {
 		fmt.Fprintln(os.Stderr, "MACHINERY: no runs completed")
 		code = 2
 	} else if inconcl*50 > total {
-		fmt.Fprintf(os.Stderr, "MACHINERY: %d of %d runs inconclusive (> 2%%)\n", inconcl, total)
-		code = 2
+		// runs cut short by the step / fake-time cap. On a tree that breaks the
+		// property (a client that flaps for ever) this is common; it is only fatal
+		// when nothing was confirmed - see below
+		tooManyInconclusive = fmt.Sprintf("%d of %d runs inconclusive (> 2%%)", inconcl, total)
 	}
 
 	knownHit := map[string]int{}
@@ -730,6 +733,9 @@ func (d *driver) finish(t0 time.Time, nomin bool) int {
 	// of the machine, not a verdict on the property - but it does not undo
 	// violations that were confirmed by replay in the same batch
 	unconfirmed = append(unconfirmed, d.stalls...)
+	if tooManyInconclusive != "" {
+		unconfirmed = append(unconfirmed, tooManyInconclusive)
+	}
 	if code != 2 {
 		os.MkdirAll(filepath.Join(verifDir, "replays"), 0o755)
 		for i, r := range reports {
